@@ -71,6 +71,7 @@ fn main() {
                 std::process::exit(2);
             }
             start_watchdog(tier);
+            engine::set_global_tier(tier);
             let ctx = Ctx::new(p.id, tier, seed, false);
             let code = engine::run_property(&p, &ctx);
             engine::tmp::cleanup_root();
